@@ -262,6 +262,8 @@ impl CommitPipeline {
 			return Ok(());
 		}
 
+		#[cfg(surrealkv_verif)]
+		crate::verif::yield_point("commit:start");
 		// Check write stall BEFORE acquiring any locks.
 		// This ensures stalled writers wait here without blocking others.
 		self.write_stall.check().await?;
@@ -269,6 +271,8 @@ impl CommitPipeline {
 		// Acquire permit for flow control
 		let _permit = self.commit_sem.acquire().await.map_err(|_| Error::PipelineStall)?;
 
+		#[cfg(surrealkv_verif)]
+		crate::verif::yield_point("commit:permit");
 		let (commit_batch, complete_rx) = CommitBatch::new(batch.count());
 
 		// === CRITICAL SECTION under write_mutex ===
@@ -294,12 +298,16 @@ impl CommitPipeline {
 		// Duplicate keys within a batch (e.g. from savepoint history) are
 		// harmless: oracle.check/publish are idempotent on the same key.
 		let (processed_batch, allocated_seq): (Batch, u64) = {
+			#[cfg(surrealkv_verif)]
+			crate::verif::acquire_point("commit:write_mutex", &|| self.write_mutex.is_locked());
 			let _guard = self.write_mutex.lock();
 
 			// Validate against the oracle. No state has changed yet; on
 			// failure `?` simply returns the error to the caller.
 			self.oracle.check(batch.entries.iter().map(|e| e.key.as_slice()), start_seq)?;
 
+			#[cfg(surrealkv_verif)]
+			crate::verif::yield_point("commit:checked");
 			let count = batch.count() as u64;
 			let seq_num = self.log_seq_num.fetch_add(count, Ordering::SeqCst);
 
@@ -327,6 +335,8 @@ impl CommitPipeline {
 			// Enqueue (single producer, same critical section as seq alloc).
 			self.pending.enqueue(Arc::clone(&commit_batch));
 
+			#[cfg(surrealkv_verif)]
+			crate::verif::yield_point("commit:enqueued");
 			// WAL + VLog (serialized under lock).
 			match self.env.write(&batch, seq_num, sync) {
 				Ok(processed) => (processed, seq_num),
@@ -351,6 +361,8 @@ impl CommitPipeline {
 		};
 		// === END CRITICAL SECTION ===
 
+		#[cfg(surrealkv_verif)]
+		crate::verif::yield_point("commit:before-apply");
 		// Memtable apply — OUTSIDE write_mutex. The next committer can already
 		// be inside the critical section. This restores the pipeline overlap
 		// that PR #378 destroyed.
@@ -391,7 +403,11 @@ impl CommitPipeline {
 			None
 		};
 
+		#[cfg(surrealkv_verif)]
+		crate::verif::yield_point("commit:before-mark-applied");
 		commit_batch.mark_applied();
+		#[cfg(surrealkv_verif)]
+		crate::verif::yield_point("commit:before-publish");
 
 		// Publish (multi-consumer) - MUST always run to drain queue
 		self.publish();
@@ -415,6 +431,8 @@ impl CommitPipeline {
 
 			match dequeued {
 				Some(batch) => {
+					#[cfg(surrealkv_verif)]
+					crate::verif::yield_point("publish:dequeued");
 					// Publish this batch's sequence number
 					let new_visible = batch.get_seq_num() + batch.count as u64 - 1;
 
@@ -439,6 +457,8 @@ impl CommitPipeline {
 						}
 					}
 
+					#[cfg(surrealkv_verif)]
+					crate::verif::yield_point("publish:before-complete");
 					// Complete this batch
 					batch.complete(Ok(()));
 				}
